@@ -759,6 +759,22 @@ pub fn star_and_pairs_universe(pairs: u8) -> Vec<RuleSpec> {
             }
         }
     }
+    // distinct ranks and a small, rule-specific payload (status, target, header filter) so that the
+    // action computed from a match set depends on every matched rule (used by C17's action-trace check)
+    let payload = |out: &mut Vec<RuleSpec>| {
+        for (i, r) in out.iter_mut().enumerate() {
+            r.rank = (i + 1) as u16;
+            let code = if i % 3 == 0 { json!(301) } else if i % 3 == 1 { json!(302) } else { Value::Null };
+            r.extra = Some(json!({
+                "status_code": code,
+                "target": if i % 3 == 2 { Value::Null } else { json!(format!("/t-{}", r.id)) },
+                "header_filters": [{"action": if i % 2 == 0 { "add" } else { "override" }, "header": format!("X-R{}", i % 4), "value": r.id, "id": null, "target_hash": null}],
+                "log_override": if i % 5 == 0 { json!(false) } else { Value::Null },
+                "stop": if i % 11 == 7 { json!(true) } else { Value::Null },
+                "reset": if i % 13 == 5 { json!(true) } else { Value::Null },
+            }));
+        }
+    };
     // a few all-dimension rules: the k-th deviation of every dimension
     for k in 0..6usize {
         let mut r = RuleSpec::base(&format!("u{:03}", out.len()));
@@ -774,5 +790,6 @@ pub fn star_and_pairs_universe(pairs: u8) -> Vec<RuleSpec> {
         r.label = format!("all: {}", labels.join(" & "));
         out.push(r);
     }
+    payload(&mut out);
     out
 }
